@@ -38,6 +38,9 @@ func c06Faults() []c06Fault {
 		{"bi-sin-arr", BI("sin", "[]"), ""}, {"bi-cos-bool", BI("cos", True()), ""}, {"bi-tan-obj", BI("tan", "obj"), ""},
 		{"bi-min-none", BI("min"), ""}, {"bi-max-empty", BI("max", "[]"), ""}, {"bi-min-str", BI("min", "1", `"x"`), ""}, {"bi-round-nil", BI("round", "nil"), ""},
 		{"bi-input-two", BI("input", `"a"`, `"b"`), ""}, {"bi-input-num", BI("input", "5"), ""}, {"bi-clock-arg", BI("clock", "1"), ""},
+		// boundaries: index equal to the length, the empty array
+		{"idx-at-length", "arr[3]", ""}, {"idx-at-length-computed", "arr[" + BI("len", "arr") + "]", ""}, {"idx-empty-array", "[][0]", ""}, {"bi-remove-at-length", BI("remove", "arr", "3"), ""}, {"bi-remove-empty", BI("remove", "[]", "0"), ""},
+		{"bi-remove-at-length-computed", BI("remove", "arr", BI("len", "arr")), ""},
 		// faults whose diagnostic quotes program text or values containing a per-cent sign
 		{"prop-missing-mod-index", "objs[7 % 3].zz", ""}, {"prop-missing-mod-literal", "({k: 5 % 3}).zz", ""}, {"prop-missing-pct-text", `({k: "100%d %s"}).zz`, ""},
 		{"bi-delete-missing-pct", BI("delete", "obj", `"k%d%s%v"`), ""}, {"tm-neg-pct-str", `(-"50%")`, ""}, {"tm-not-pct-str", `(~"5%d")`, ""}, {"tm-pct-str-star", `("%s%n" * 2)`, ""},
@@ -45,7 +48,7 @@ func c06Faults() []c06Fault {
 		// statement faults
 		{"redeclare", "", Var("dup", "2")}, {"redeclare-in-list", "", K["var"] + " fresh1 = 1, dup = 2;"}, {"redeclare-list-twice", "", K["var"] + " m1 = 1, m2 = 2; " + K["var"] + " m3 = 3, m1 = 4;"}, {"undefined-assign", "", "নেই = 1;"},
 		{"redeclare-multiline-array", "", Var("dup", "[\n 1,\n 2\n]")}, {"redeclare-multiline-object", "", Var("dup", "{\n k: 1,\n j: [\n 2\n ]\n}")}, {"redeclare-in-list-multiline", "", K["var"] + " fresh2 = [\n 1\n], dup = {\n k: 2\n};"},
-		{"idxw-high", "", "arr[5] = 1;"}, {"idxw-str", "", `arr["x"] = 1;`}, {"idxw-neg", "", "arr[-1] = 1;"}, {"idxw-nonarray", "", "(5)[0] = 1;"},
+		{"idxw-high", "", "arr[5] = 1;"}, {"idxw-at-length", "", "arr[3] = 1;"}, {"idxw-at-length-computed", "", "arr[" + BI("len", "arr") + "] = 4;"}, {"idxw-empty-array", "", Var("emp", "[]") + " emp[0] = 1;"}, {"idxw-str", "", `arr["x"] = 1;`}, {"idxw-neg", "", "arr[-1] = 1;"}, {"idxw-nonarray", "", "(5)[0] = 1;"},
 		{"propw-num", "", "(5).k = 1;"}, {"propw-nil", "", "nil.k = 1;"}, {"propw-nested-missing", "", "obj.zz.k = 1;"},
 	}
 	return f
@@ -374,7 +377,7 @@ func c06Run(c *Ctx) {
 func init() {
 	register(&CheckDef{
 		ID:   "C06",
-		Rule: "programs: 80 expression faults and 12 statement faults (incl. ones whose diagnostic quotes text containing a per-cent sign; undefined name, redeclaration, type mismatch for every operator family, zero divisor, negative shift, bad index read/write, missing property, property of non-object, non-callable, arity, every built-in with a bad argument) planted at 45 syntactic positions (top level, nested block, if condition/then/else, while condition/body, infinite while/for body, for initializer/condition/increment/body, function body, nested function, function called from a loop, call argument first/last, callee, array/object literal element, index, initializer, return operand, either side of ||, &&, binary, unary, three assignment forms, ...) x 3 layouts; after the fault each program has tagged prints, ইনপুট(prompt) calls with stdin available, and enclosing loops that end only through a থামো placed after the fault. In-process runs record the hook event order (stdout / diagnostic / built-in call / stdin read) and an X-never-after-Y monitor checks nothing follows the first runtime diagnostic; a step budget derived from the model decides termination; the binary is run with separate pipes (model comparison) and with one merged pipe (ordering). Plus stray signals, fault-free controls, seeded random faulty programs. Non-trivial = distinct program whose planted fault was reached and decided.",
+		Rule: "programs: 86 expression faults and 15 statement faults (incl. ones whose diagnostic quotes text containing a per-cent sign; undefined name, redeclaration, type mismatch for every operator family, zero divisor, negative shift, bad index read/write, missing property, property of non-object, non-callable, arity, every built-in with a bad argument) planted at 45 syntactic positions (top level, nested block, if condition/then/else, while condition/body, infinite while/for body, for initializer/condition/increment/body, function body, nested function, function called from a loop, call argument first/last, callee, array/object literal element, index, initializer, return operand, either side of ||, &&, binary, unary, three assignment forms, ...) x 3 layouts; after the fault each program has tagged prints, ইনপুট(prompt) calls with stdin available, and enclosing loops that end only through a থামো placed after the fault. In-process runs record the hook event order (stdout / diagnostic / built-in call / stdin read) and an X-never-after-Y monitor checks nothing follows the first runtime diagnostic; a step budget derived from the model decides termination; the binary is run with separate pipes (model comparison) and with one merged pipe (ordering). Plus stray signals, fault-free controls, seeded random faulty programs. Non-trivial = distinct program whose planted fault was reached and decided.",
 		Assumptions: []string{"the faulting expression sits on one source line; siblings of the faulting operand are pure wherever the detection order is not fixed by the properties"},
 		Run:         c06Run,
 		Judge:       c06Judge,
